@@ -231,11 +231,16 @@ def contract_guard(ctx, suf):
         emp1 = emptiness(e1, e1b)
         emp2 = emptiness(e2, e2b)
         slashes = None
-        if head is False or emp1 is False:
-            # no first segment, or a non-empty one: the text cannot begin with "//" whatever the flag says
+        if head is False or emp1 is False or nxt is False:
+            # no first segment, a non-empty one, or no second segment: the text cannot begin with "//" whatever the flag says
             slashes = False
         elif absf is True:
-            slashes = emp1
+            # "/" + "" + "/" + ...: the text begins with "//" only if a second segment follows the empty first one; a lone empty
+            # segment is just "/"
+            if nxt is False:
+                slashes = False
+            elif emp1 and nxt:
+                slashes = True
         elif absf is False:
             if nxt is False or emp1 is False or emp2 is False:
                 slashes = False
